@@ -107,7 +107,18 @@ ArgvWhy(r) ==
      ELSE IF ~ResolveOK(r.defpath, r.hasdef, RangeOf(r.candidates), r.cmd, r.observed.exe) THEN "C11:wrong executable resolved"
      ELSE ""
 
+\* beyond the list: one target's `target show --commands` / `--argmaps` listing against Plan.tla (drift note only)
+ShowWhys(r) ==
+  LET defs  == RangeOf(r.defs)
+      cands == RangeOf(r.candidates)
+      shown == RangeOf(r.shown)
+      perm(p) == IF \E x \in RangeOf(r.perms) : x.path = p THEN (CHOOSE x \in RangeOf(r.perms) : x.path = p).perm ELSE ""
+  IN (IF { x.name : x \in shown } # ShownNames(defs, cands) THEN {"SHOW:listed names differ from definitions plus directory files"} ELSE {})
+     \cup (IF \E x \in shown : ~ShownPathOK(defs, cands, x.name, x.path) THEN {"SHOW:a listed name shows the wrong file"} ELSE {})
+     \cup (IF \E x \in shown : x.perm # perm(x.path) THEN {"SHOW:permissions shown differ from the file's mode"} ELSE {})
+
 Whys(r) == CASE r.ev = "run"    -> RunWhys(r)
+             [] r.ev = "show"   -> ShowWhys(r)
              [] r.ev = "argv"   -> {ArgvWhy(r)} \ {""}
              [] r.ev = "reject" -> {RejectWhy(r)} \ {""}
              [] OTHER           -> {"unknown record kind"}
